@@ -700,3 +700,69 @@ def arg_of(call: ast.Call, pos: int, name: Optional[str] = None) -> Optional[ast
     if name:
         return kwarg(call, name)
     return None
+
+
+def canon(node, whole_function: bool = False) -> str:
+    return norm(canon_tree(node, whole_function))
+
+
+def canon_tree(node, whole_function: bool = False) -> ast.AST:
+    """alpha-normalised tree: variables bound inside the construct (comprehension targets, lambda parameters; with
+    whole_function=True every stored local of a function body) are renamed _b0, _b1, ... in order of first binding, so that
+    two constructs differing only in the names of their bound variables have the same text."""
+    import copy as _copy
+    if isinstance(node, str):
+        try:
+            node = ast.parse(node, mode="eval").body
+        except SyntaxError:
+            node = ast.parse(node).body[0]
+    node = _copy.deepcopy(node)
+    order: List[str] = []
+
+    def bind(t):
+        for x in ast.walk(t):
+            if isinstance(x, ast.Name) and x.id not in order:
+                order.append(x.id)
+
+    class V(ast.NodeVisitor):
+        def visit_ListComp(self, n):
+            for g in n.generators:
+                bind(g.target)
+            self.generic_visit(n)
+        visit_SetComp = visit_GeneratorExp = visit_DictComp = visit_ListComp
+
+        def visit_Lambda(self, n):
+            for a in n.args.args:
+                if a.arg not in order:
+                    order.append(a.arg)
+            self.generic_visit(n)
+
+        def visit_For(self, n):
+            if whole_function:
+                bind(n.target)
+            self.generic_visit(n)
+
+        def visit_AnnAssign(self, n):
+            self.generic_visit(n)
+            if whole_function and isinstance(n.target, ast.Name) and n.target.id not in order:
+                order.append(n.target.id)
+
+        def visit_Assign(self, n):
+            self.generic_visit(n)
+            if whole_function:
+                for t in n.targets:
+                    for x in ast.walk(t):
+                        if isinstance(x, ast.Name) and isinstance(x.ctx, ast.Store) and x.id not in order:
+                            order.append(x.id)
+    V().visit(node)
+    m = {n: f"_b{i}" for i, n in enumerate(order)}
+
+    class R(ast.NodeTransformer):
+        def visit_Name(self, n):
+            return ast.copy_location(ast.Name(id=m[n.id], ctx=n.ctx), n) if n.id in m else n
+
+        def visit_arg(self, n):
+            if n.arg in m:
+                n.arg = m[n.arg]
+            return n
+    return R().visit(node)
